@@ -1,0 +1,58 @@
+//! Verification hooks -- compiled only with the cargo feature `verif` (off by default).
+#![allow(unexpected_cfgs)]
+//!
+//! Nothing in here changes the behaviour of the library: [yield_point()] is a no-op unless a callback
+//! is installed, and [sequence_origin()] answers 0 unless origins were set.
+
+use std::sync::atomic::{AtomicU32, AtomicUsize, Ordering::SeqCst};
+
+// re-exports of crate-private items the verification harnesses need to name
+pub use crate::streams_manager::StreamsManagerBase;
+pub use crate::incremental_averages::AtomicIncrementalAverage64;
+
+static YIELD_CALLBACK: AtomicUsize = AtomicUsize::new(0);
+
+/// Placed before statements that touch state shared among threads.\
+/// Model checkers replace this function (e.g. `#[kani::stub]`); native replays install a callback
+/// through [set_yield_callback()] to steer the interleaving.
+#[cfg(not(kani))]
+#[inline(never)]
+pub fn yield_point() {
+    let callback = YIELD_CALLBACK.load(SeqCst);
+    if callback != 0 {
+        let callback: fn() = unsafe { std::mem::transmute::<usize, fn()>(callback) };
+        callback();
+    }
+}
+
+/// (under Kani the body is empty: harnesses that care stub this function)
+#[cfg(kani)]
+#[inline(never)]
+pub fn yield_point() {}
+
+/// Installs (or removes, with `None`) the function [yield_point()] calls
+pub fn set_yield_callback(callback: Option<fn()>) {
+    YIELD_CALLBACK.store(callback.map(|f| f as usize).unwrap_or(0), SeqCst);
+}
+
+const ORIGINS: usize = 4;
+static SEQUENCE_ORIGINS: [AtomicU32; ORIGINS] = [AtomicU32::new(0), AtomicU32::new(0), AtomicU32::new(0), AtomicU32::new(0)];
+static NEXT_ORIGIN: AtomicUsize = AtomicUsize::new(0);
+
+/// The value the sequence counters of the next ring buffer to be created will start from
+/// -- successive calls cycle through the values given to [set_sequence_origins()]
+pub fn sequence_origin() -> u32 {
+    let i = NEXT_ORIGIN.load(SeqCst);
+    NEXT_ORIGIN.store((i + 1) % ORIGINS, SeqCst);
+    SEQUENCE_ORIGINS[i % ORIGINS].load(SeqCst)
+}
+
+/// Sets the values [sequence_origin()] cycles through (restarting the cycle)
+pub fn set_sequence_origins(origins: [u32; ORIGINS]) {
+    let mut i = 0;
+    while i < ORIGINS {
+        SEQUENCE_ORIGINS[i].store(origins[i], SeqCst);
+        i += 1;
+    }
+    NEXT_ORIGIN.store(0, SeqCst);
+}
